@@ -10,16 +10,16 @@ Definition pkgs_of (U : universe) (S : list pid) : list pkg := List.map (fun j =
 Lemma nm_new_resolver U j : nm (new_resolver U) j = p_name (nth j U dummy_pkg).
 Proof. unfold nm. rewrite getp_new_resolver. reflexivity. Qed.
 
-Lemma nodup_lemma U W dq0 scheds S : resolve U W dq0 scheds = Ok S -> NoDup (List.map p_name (pkgs_of U S)).
+Lemma nodup_lemma U W dq0 S : resolve U W dq0 = Ok S -> NoDup (List.map p_name (pkgs_of U S)).
 Proof.
-  intros H. apply (resolve_ok _ _ _ _ _ (new_resolver_wf2 U)) in H. destruct H as [H _].
+  intros H. apply (resolve_ok _ _ _ _ (new_resolver_wf2 U)) in H. destruct H as [H _].
   unfold pkgs_of. rewrite map_map. erewrite map_ext; [exact H|]. intros j. simpl. symmetry. apply nm_new_resolver.
 Qed.
 
-Lemma members_lemma U W dq0 scheds S : resolve U W dq0 scheds = Ok S ->
+Lemma members_lemma U W dq0 S : resolve U W dq0 = Ok S ->
   incl (pkgs_of U S) U /\ forall j, In j S -> j < List.length U.
 Proof.
-  intros H. apply (resolve_ok _ _ _ _ _ (new_resolver_wf2 U)) in H. destruct H as [_ [H _]].
+  intros H. apply (resolve_ok _ _ _ _ (new_resolver_wf2 U)) in H. destruct H as [_ [H _]].
   rewrite Forall_forall in H.
   assert (V : forall j, In j S -> j < List.length U).
   { intros j Hj. destruct (H j Hj) as [Vj _]. unfold valid, new_resolver in Vj; cbn [r_pkgs] in Vj.
@@ -28,24 +28,24 @@ Proof.
   apply nth_In. apply V. exact Hj.
 Qed.
 
-Lemma failure_lemma U W dq0 scheds :
-  (forall S, resolve U W dq0 scheds = Ok S ->
+Lemma failure_lemma U W dq0 :
+  (forall S, resolve U W dq0 = Ok S ->
      forall w, In w W -> exists dq i, incl dq0 dq /\ In i (candidates (new_resolver U) dq (cook_str w)) /\
                                       exists j, In j S /\ p_name (nth j U dummy_pkg) = p_name (nth i U dummy_pkg)) /\
   ((exists w, In w W /\ forall dq, incl dq0 dq -> candidates (new_resolver U) dq (cook_str w) = []) ->
-   forall S, resolve U W dq0 scheds <> Ok S).
+   forall S, resolve U W dq0 <> Ok S).
 Proof.
-  assert (A : forall S, resolve U W dq0 scheds = Ok S ->
+  assert (A : forall S, resolve U W dq0 = Ok S ->
      forall w, In w W -> exists dq i, incl dq0 dq /\ In i (candidates (new_resolver U) dq (cook_str w)) /\
                                       exists j, In j S /\ p_name (nth j U dummy_pkg) = p_name (nth i U dummy_pkg)).
-  { intros S H w Hw. apply (resolve_ok _ _ _ _ _ (new_resolver_wf2 U)) in H. destruct H as [_ [_ H]].
+  { intros S H w Hw. apply (resolve_ok _ _ _ _ (new_resolver_wf2 U)) in H. destruct H as [_ [_ H]].
     destruct (H w Hw) as [dq [i [H1 [H2 [j [H3 H4]]]]]]. exists dq, i. split; [exact H1|]. split; [exact H2|].
     exists j. split; [exact H3|]. rewrite <- !nm_new_resolver. exact H4. }
   split; [exact A|]. intros [w [Hw Hnone]] S H. destruct (A S H w Hw) as [dq [i [H1 [H2 _]]]].
   rewrite (Hnone dq H1) in H2. exact H2.
 Qed.
 
-Lemma termination_lemma U W dq0 scheds : resolve U W dq0 scheds <> OutOfFuel.
+Lemma termination_lemma U W dq0 : resolve U W dq0 <> OutOfFuel.
 Proof. apply resolve_not_out_of_fuel. apply new_resolver_wf. Qed.
 
 (* ---- refutation witnesses (each is replayed on the real code by the harness corpus) ---- *)
@@ -68,33 +68,33 @@ Definition U_F4 : universe :=
 Definition U_F5 : universe :=
   [wp "d" "3" ["d~2.0a"; "l"] [] []; wp "d" "2.0a" ["g"] [] []; wp "l" "1" [] [] []; wp "g" "1" [] [] []].
 
-Definition refutes (U : universe) (W : list string) (scheds : list (list string)) (tag : string) : Prop :=
-  exists S, resolve U W [] scheds = Ok S /\ ~ Closed U W (pkgs_of U S) /\ In tag (closed_check U W (pkgs_of U S)).
+Definition refutes (U : universe) (W : list string) (tag : string) : Prop :=
+  exists S, resolve U W [] = Ok S /\ ~ Closed U W (pkgs_of U S) /\ In tag (closed_check U W (pkgs_of U S)).
 
-Lemma refute_by_check U W scheds S tag :
-  resolve U W [] scheds = Ok S -> In tag (closed_check U W (pkgs_of U S)) -> refutes U W scheds tag.
+Lemma refute_by_check U W S tag :
+  resolve U W [] = Ok S -> In tag (closed_check U W (pkgs_of U S)) -> refutes U W tag.
 Proof.
   intros H T. exists S. split; [exact H|]. split; [|exact T].
   intro C. apply closed_check_spec in C. rewrite C in T. exact T.
 Qed.
 
-Lemma refuted_F1 : refutes U_F1 ["a"; "b"] [] "dep-unsat/same-name-other-version".
-Proof. apply (refute_by_check _ _ _ [4; 0; 1]); vm_compute; [reflexivity | left; reflexivity]. Qed.
-Lemma refuted_F2 : refutes U_F2 ["w"] [["d"]] "dep-unsat/install-if-member".
-Proof. apply (refute_by_check _ _ _ [1; 2; 0]); vm_compute; [reflexivity | left; reflexivity]. Qed.
-Lemma refuted_F3 : refutes U_F3 ["a"] [] "dep-unsat/self-provided".
-Proof. apply (refute_by_check _ _ _ [0]); vm_compute; [reflexivity | left; reflexivity]. Qed.
-Lemma refuted_F4 : refutes U_F4 ["b"; "a"] [] "dep-unsat/provider-other-version".
-Proof. apply (refute_by_check _ _ _ [2; 1; 0; 3]); vm_compute; [reflexivity | left; reflexivity]. Qed.
-Lemma refuted_F5 : refutes U_F5 ["d"] [] "dep-unsat/absent".
-Proof. apply (refute_by_check _ _ _ [1; 2]); vm_compute; [reflexivity | left; reflexivity]. Qed.
+Lemma refuted_F1 : refutes U_F1 ["a"; "b"] "dep-unsat/same-name-other-version".
+Proof. apply (refute_by_check _ _ [4; 0; 1]); vm_compute; [reflexivity | left; reflexivity]. Qed.
+Lemma refuted_F2 : refutes U_F2 ["w"] "dep-unsat/install-if-member".
+Proof. apply (refute_by_check _ _ [1; 2; 0]); vm_compute; [reflexivity | left; reflexivity]. Qed.
+Lemma refuted_F3 : refutes U_F3 ["a"] "dep-unsat/self-provided".
+Proof. apply (refute_by_check _ _ [0]); vm_compute; [reflexivity | left; reflexivity]. Qed.
+Lemma refuted_F4 : refutes U_F4 ["b"; "a"] "dep-unsat/provider-other-version".
+Proof. apply (refute_by_check _ _ [2; 1; 0; 3]); vm_compute; [reflexivity | left; reflexivity]. Qed.
+Lemma refuted_F5 : refutes U_F5 ["d"] "dep-unsat/absent".
+Proof. apply (refute_by_check _ _ [1; 2]); vm_compute; [reflexivity | left; reflexivity]. Qed.
 
 Lemma closed_refuted_lemma :
-  refutes U_F1 ["a"; "b"] [] "dep-unsat/same-name-other-version" /\
-  refutes U_F2 ["w"] [["d"]] "dep-unsat/install-if-member" /\
-  refutes U_F3 ["a"] [] "dep-unsat/self-provided" /\
-  refutes U_F4 ["b"; "a"] [] "dep-unsat/provider-other-version" /\
-  refutes U_F5 ["d"] [] "dep-unsat/absent".
+  refutes U_F1 ["a"; "b"] "dep-unsat/same-name-other-version" /\
+  refutes U_F2 ["w"] "dep-unsat/install-if-member" /\
+  refutes U_F3 ["a"] "dep-unsat/self-provided" /\
+  refutes U_F4 ["b"; "a"] "dep-unsat/provider-other-version" /\
+  refutes U_F5 ["d"] "dep-unsat/absent".
 Proof. repeat split; [exact refuted_F1 | exact refuted_F2 | exact refuted_F3 | exact refuted_F4 | exact refuted_F5]. Qed.
 
 (* ---- C14 ------------------------------------------------------------------------------- *)
@@ -113,9 +113,9 @@ Qed.
 Definition others_of (by_arch : list (string * universe)) (a : string) : list universe :=
   List.map snd (List.filter (fun bv => negb (String.eqb (fst bv) a)) by_arch).
 
-Lemma no_foreign_partial_lemma by_arch a U W scheds S :
+Lemma no_foreign_partial_lemma by_arch a U W S :
   In (a, U) by_arch -> (forall p, In p U -> p_install_if p = []) ->
-  resolve U W (dq_for by_arch a) scheds = Ok S ->
+  resolve U W (dq_for by_arch a) = Ok S ->
   NoForeign (others_of by_arch a) (pkgs_of U S).
 Proof.
   intros Ha Hno H p V Hp HV. unfold pkgs_of in Hp. apply in_map_iff in Hp. destruct Hp as [j [<- Hj]].
@@ -130,12 +130,12 @@ Definition BA_F1 : list (string * universe) :=
    ("aarch64", [wp "w" "1" ["a"] [] []; wp "a" "1" [] [] []])].
 
 Lemma no_foreign_refuted_lemma :
-  exists by_arch a U W scheds S,
-    In (a, U) by_arch /\ resolve U W (dq_for by_arch a) scheds = Ok S /\
+  exists by_arch a U W S,
+    In (a, U) by_arch /\ resolve U W (dq_for by_arch a) = Ok S /\
     ~ NoForeign (others_of by_arch a) (pkgs_of U S) /\
     In "foreign-version/install-if-member" (foreign_check (others_of by_arch a) (pkgs_of U S)).
 Proof.
-  exists BA_F1, "x86_64", (snd (nth 0 BA_F1 ("", []))), ["w"], [["a"]], [1; 2; 0].
+  exists BA_F1, "x86_64", (snd (nth 0 BA_F1 ("", []))), ["w"], [1; 2; 0].
   split; [left; reflexivity|]. split; [vm_compute; reflexivity|].
   assert (T : In "foreign-version/install-if-member"
                 (foreign_check (others_of BA_F1 "x86_64") (pkgs_of (snd (nth 0 BA_F1 ("", []))) [1; 2; 0]))).
@@ -145,10 +145,10 @@ Qed.
 
 Lemma single_arch_lemma by_arch : List.length by_arch <= 1 ->
   disqualify_difference by_arch = [] /\
-  forall a U W scheds, resolve U W (dq_for by_arch a) scheds = resolve U W [] scheds.
+  forall a U W, resolve U W (dq_for by_arch a) = resolve U W [].
 Proof.
   intros H. pose proof (single_arch_nothing by_arch H) as E. split; [exact E|].
-  intros a U W scheds. unfold dq_for. rewrite E. reflexivity.
+  intros a U W. unfold dq_for. rewrite E. reflexivity.
 Qed.
 
 (* ---- "a successful result satisfies every request" is false too ------------------------ *)
@@ -158,24 +158,24 @@ Definition U_F1c : universe := [wp "d" "2.0" ["l"] ["k"] []; wp "d" "1.0" [] ["l
 Definition U_F6 : universe :=
   [wp "a" "1.0" [] [] []; wp "r" "1.0" ["a"] [] []; wp "c" "5.0" [] [] ["a"]; wp "c" "1.0" [] [] []].
 
-Definition request_refutes (U : universe) (W : list string) (scheds : list (list string)) (w tag : string) : Prop :=
-  exists S, resolve U W [] scheds = Ok S /\ In w W /\ ~ satisfies_dep (pkgs_of U S) w /\
+Definition request_refutes (U : universe) (W : list string) (w tag : string) : Prop :=
+  exists S, resolve U W [] = Ok S /\ In w W /\ ~ satisfies_dep (pkgs_of U S) w /\
             In tag (closed_check U W (pkgs_of U S)).
 
-Lemma request_refute_by_check U W scheds S w tag :
-  resolve U W [] scheds = Ok S -> In w W ->
+Lemma request_refute_by_check U W S w tag :
+  resolve U W [] = Ok S -> In w W ->
   satisfies_dep_b (List.map cook_pkg (pkgs_of U S)) (cook_str w) = false ->
-  In tag (closed_check U W (pkgs_of U S)) -> request_refutes U W scheds w tag.
+  In tag (closed_check U W (pkgs_of U S)) -> request_refutes U W w tag.
 Proof.
   intros H Hw B T. exists S. split; [exact H|]. split; [exact Hw|]. split; [|exact T].
   intro C. apply satisfies_dep_b_spec in C. congruence.
 Qed.
 
 Lemma request_unsat_refuted_lemma :
-  request_refutes U_F1c ["k"] [] "k" "request-unsat/sibling-of-member" /\
-  request_refutes U_F6 ["r"; "c<2"] [["a"]] "c<2" "request-unsat/install-if-member".
+  request_refutes U_F1c ["k"] "k" "request-unsat/sibling-of-member" /\
+  request_refutes U_F6 ["r"; "c<2"] "c<2" "request-unsat/install-if-member".
 Proof.
   split.
-  - apply (request_refute_by_check _ _ _ [1]); vm_compute; [reflexivity | left; reflexivity | reflexivity | left; reflexivity].
-  - apply (request_refute_by_check _ _ _ [0; 2; 1]); vm_compute; [reflexivity | right; left; reflexivity | reflexivity | left; reflexivity].
+  - apply (request_refute_by_check _ _ [1]); vm_compute; [reflexivity | left; reflexivity | reflexivity | left; reflexivity].
+  - apply (request_refute_by_check _ _ [0; 2; 1]); vm_compute; [reflexivity | right; left; reflexivity | reflexivity | left; reflexivity].
 Qed.
